@@ -242,6 +242,10 @@ impl<T> Pool<T> {
         let inner = self.inner.as_ref();
         #[cfg(deadpool_verif)]
         crate::verif::point("u_get:enter", Arc::as_ptr(&self.inner) as usize);
+        // A caller which has not got its object yet counts as negative
+        // availability, i.e. as `Status::waiting`.
+        let _ = inner.available.fetch_sub(1, Ordering::Relaxed);
+        let wait_guard = WaitGuard(&inner.available);
         let permit = match (timeout, inner.config.runtime) {
             (None, _) => inner
                 .semaphore
@@ -275,7 +279,8 @@ impl<T> Pool<T> {
         permit.forget();
         #[cfg(deadpool_verif)]
         crate::verif::point("u_get:forgot", Arc::as_ptr(&self.inner) as usize);
-        let _ = inner.available.fetch_sub(1, Ordering::Relaxed);
+        // `available` was decremented up front, the object is accounted for.
+        std::mem::forget(wait_guard);
         #[cfg(deadpool_verif)]
         crate::verif::point("u_get:avail_dec", Arc::as_ptr(&self.inner) as usize);
         Ok(Object {
@@ -424,6 +429,16 @@ impl<T> Pool<T> {
             queue: queue.len(),
             closed: self.inner.semaphore.is_closed(),
         }
+    }
+}
+
+/// Takes a caller of [`Pool::timeout_get()`] out of the `available` counter
+/// again if it gives up (error, timeout, dropped future).
+struct WaitGuard<'a>(&'a AtomicIsize);
+
+impl Drop for WaitGuard<'_> {
+    fn drop(&mut self) {
+        let _ = self.0.fetch_add(1, Ordering::Relaxed);
     }
 }
 
